@@ -126,6 +126,14 @@ theorem c12_checkForError_common (others : List Re) (l : Line) (h : commonMarker
   simp only [checkForError, Bool.false_eq_true, if_false]
   rw [h]; rfl
 
+/-- the adapter-specific markers (`.*Failed.*verification`, `.*Benchmark done.*verification failed`,
+`.*incorrect.*`, `.*error.*`) are looked for with Python's `search`; the model tries offset 0 only,
+which is the same thing for a pattern that starts with `.*` -/
+theorem c12_dotStar_markers_search (l : Line) :
+    reNPBPartial.search l = reNPBPartial.searchDotStar l ∧ reNPBInvalid.search l = reNPBInvalid.searchDotStar l ∧
+    reIncorrect.search l = reIncorrect.searchDotStar l ∧ reErr.search l = reErr.searchDotStar l :=
+  ⟨search_dotStar _ l, search_dotStar _ l, search_dotStar _ l, search_dotStar _ l⟩
+
 /-! ## the adapters -/
 
 /-- every built-in adapter except ValidationLog, both `include_faulty` settings,
